@@ -678,7 +678,7 @@ func round3(f float64) float64 { return float64(int64(f*1000+0.5)) / 1000 }
 //         (go build -race, harness demonstration mode) for every generated program.
 func cmdSelftest(args []string) int {
 	bad := 0
-	files := []string{"api.go", "common.go", "c04.go", "c20.go"}
+	files := []string{"api.go", "common.go", "c04.go", "c14.go", "c20.go"}
 	nb, err := buildNative(files, true)
 	if err != nil {
 		fmt.Println("NATIVE-BUILD-ERROR:", err)
